@@ -132,18 +132,26 @@ def translations(dim, tier, seed):
     return out
 
 
+def _h(name):
+    import zlib
+    return zlib.crc32(name.encode())
+
+
+def thin(name, tier, q=4, t=2):
+    """name-based thinning of a product: the quick selection (h % q == 0) is a subset of the thorough one
+    (h % t == 0, t divides q) whatever the seed, because it depends on the letter names only"""
+    return _h(name) % (q if tier == 'quick' else t) == 0
+
+
 def gen_SE(dim, tier, seed):
-    """rigid motions: rotations x translations, thinned to a generator set (not the full product)"""
+    """rigid motions: rotations x translations, thinned by name to a generator set (not the full product)"""
     rots = gen_SO3(tier, seed) if dim == 3 else gen_SO2(tier, seed)
     trs = translations(dim, tier, seed)
+    forced = ('I|t=0', 'I|t=g', 'near-pi|t=1e6*d', 'near-0|t=1e3*d', 'R(pi-1e-9)|t=1e6*d', 'R(1e-9)|t=1e3*d')
     out = []
-    for i, (rn, R) in enumerate(rots):
-        for j, (tn, t) in enumerate(trs):
-            if tier == 'quick':
-                if (i + j) % len(trs) != 0 and not (rn == 'I' and tn in ('g',)):
-                    continue
-            else:
-                if (i + 2 * j) % 3 != 0 and rn != 'I':
-                    continue
-            out.append(('%s|t=%s' % (rn, tn), ref.rt(R, t)))
+    for rn, R in rots:
+        for tn, t in trs:
+            name = '%s|t=%s' % (rn, tn)
+            if name in forced or thin(name, tier):
+                out.append((name, ref.rt(R, t)))
     return out
